@@ -21,6 +21,9 @@ type c12Config struct {
 	Global  wire.Parameters
 	Version string
 	Auth    bool
+	// Earlier, when set, is another user-supplied map handed to a GlobalParameters option that PRECEDES the
+	// one carrying Global (an application composing option lists): neither map may ever be modified
+	Earlier wire.Parameters
 }
 
 func c12Configs() []c12Config {
@@ -41,6 +44,9 @@ func c12Configs() []c12Config {
 				out = append(out, c12Config{Name: fmt.Sprintf("global=%s version=%q auth=%v", g.n, v, a), Global: g.g, Version: v, Auth: a})
 			}
 		}
+		for _, e := range []wire.Parameters{{}, {"TimeZone": "UTC", "a": "0"}} {
+			out = append(out, c12Config{Name: fmt.Sprintf("global=%s preceded by an option with %v", g.n, e), Global: g.g, Earlier: e})
+		}
 	}
 	return out
 }
@@ -54,6 +60,7 @@ type c12Seen struct {
 	client   wire.Parameters
 	server   wire.Parameters
 	user     string
+	earlier  wire.Parameters // the map handed to the preceding GlobalParameters option
 }
 
 func c12Server(cfg c12Config, seen *c12Seen) (*harness.One, wire.Parameters, error) {
@@ -70,10 +77,15 @@ func c12Server(cfg c12Config, seen *c12Seen) (*harness.One, wire.Parameters, err
 	if cfg.Global != nil {
 		global = maps.Clone(cfg.Global)
 	}
-	opts := []wire.OptionFn{wire.GlobalParameters(global), wire.SessionMiddleware(func(ctx context.Context) (context.Context, error) {
+	var opts []wire.OptionFn
+	if cfg.Earlier != nil {
+		seen.earlier = maps.Clone(cfg.Earlier)
+		opts = append(opts, wire.GlobalParameters(seen.earlier))
+	}
+	opts = append(opts, wire.GlobalParameters(global), wire.SessionMiddleware(func(ctx context.Context) (context.Context, error) {
 		seen.sessions++
 		return ctx, nil
-	})}
+	}))
 	if cfg.Version != "" {
 		opts = append(opts, wire.Version(cfg.Version))
 	}
@@ -155,6 +167,14 @@ func c12Run(cfg c12Config, kv []string) explore.Result {
 	for k, v := range builtin {
 		want[k] = append(want[k], v)
 	}
+	optional := map[string]bool{}
+	for k, v := range cfg.Earlier {
+		// whether an earlier option is replaced by or combined with a later one is not asserted
+		if _, has := want[string(k)]; !has {
+			optional[string(k)] = true
+		}
+		want[string(k)] = append(want[string(k)], v)
+	}
 	var users []string
 	for u := range sent["user"] {
 		users = append(users, u)
@@ -180,13 +200,16 @@ func c12Run(cfg c12Config, kv []string) explore.Result {
 		}
 	}
 	for k := range want {
-		if _, ok := block[k]; !ok {
+		if _, ok := block[k]; !ok && !optional[k] {
 			res.Fail("parameter-status-missing", fmt.Sprintf("no ParameterStatus for %q; block %v", k, block))
 		}
 	}
 	// the configured map is never modified
 	if !maps.Equal(global, cfg.Global) {
 		res.Fail("global-map-modified", fmt.Sprintf("configured %v, after serving %v", cfg.Global, global))
+	}
+	if cfg.Earlier != nil && !maps.Equal(seen.earlier, cfg.Earlier) {
+		res.Fail("global-map-modified", fmt.Sprintf("the map handed to an earlier GlobalParameters option was %v, it now is %v", cfg.Earlier, seen.earlier))
 	}
 	// what handlers see
 	out, _ = one.Step(pgproto.Query("q"))
@@ -326,7 +349,7 @@ func init() {
 		ID:          "C12",
 		Level:       "model_checking",
 		Technique:   "exhaustive enumeration of startup packets x server configurations on a real server (sequential part) and of all schedules of concurrently connecting users under a cooperative scheduler up to a preemption bound (schedule part, run by the C15 engine), against a reference description of the negotiation",
-		Rule:        "all startup key/value lists of <= n pairs over 4 keys x 3 values (duplicates included) x 20 server configurations (5 global maps x 2 versions x auth on/off); 8 malformed / cancel packets x 20 configurations; distinct = distinct (configuration, packet)",
+		Rule:        "all startup key/value lists of <= n pairs over 4 keys x 3 values (duplicates included) x 30 server configurations (5 global maps x 2 versions x auth on/off, and 5 global maps preceded by a second GlobalParameters option with an empty / a two-entry map); 8 malformed / cancel packets x 30 configurations; distinct = distinct (configuration, packet)",
 		Assumptions: []string{"not asserted: order inside the ParameterStatus block; which duplicate of a repeated startup key wins; the value sent when a configured key collides with a standard parameter (either is accepted, exactly once)"},
 		Enumerate:   c12Enumerate,
 		Bounds: func(tier string) map[string]any {
